@@ -63,7 +63,7 @@ def opaque_reason(text, terms=()):
 # rules decided by scanning the syntax tree (who may call / who writes / what an except handler
 # does / what a loop iterates): their verdict does not rest on the interpreter's model of the
 # constructs around the site, so an unmodelled construct elsewhere in the file does not weaken it
-FIRM_RULES = {"C14.entropy", "C14.hash-order", "C18.not-swallowed", "C19.shared-global",
+FIRM_RULES = {"C14.entropy", "C14.hash-order", "C14.seed-first", "C18.not-swallowed", "C19.shared-global",
               "C09.order", "C15.loop", "C15.division"}
 
 
